@@ -451,10 +451,12 @@ func sameClass(v Variant, rf *ReplayFile, class string, tries int) bool {
 // minimise shrinks a failing choice trace by delta debugging in fresh worker
 // processes: truncate, delete chunks, zero and halve single choices. A
 // candidate is kept only if it fails in the same violation class.
-func minimise(v Variant, rf ReplayFile, class string, budget time.Duration) []int {
+func minimise(v Variant, rf ReplayFile, class string, budget time.Duration, flaky bool) []int {
 	tries := 1
 	if v.Race {
 		tries = 6
+	} else if flaky {
+		tries = 4
 	}
 	deadline := time.Now().Add(budget)
 	cur := append([]int(nil), rf.Trace...)
@@ -874,13 +876,21 @@ func check(id, tier string, runsOverride, secsOverride int) int {
 			}
 			rf.Trace = tr
 		}
-		// reproduce first
-		tries := 1
+		// reproduce first. One attempt is enough unless the violation depends on
+		// something no seed controls: sync.Pool randomness under -race, or the order
+		// in which zapx walks its section map (Go map iteration). Then it replays
+		// with the probability of that order, and up to 10 (race: 20) fresh-process
+		// attempts are made.
+		tries := 10
 		if f.variant.Race {
 			tries = 20
 		}
 		seqMode := false
-		if !sameClass(f.variant, &rf, cls, tries) {
+		flaky := false
+		if !sameClass(f.variant, &rf, cls, 1) {
+			flaky = true
+		}
+		if flaky && !sameClass(f.variant, &rf, cls, tries) {
 			// the run alone does not reproduce it: does the sequence of seeded runs
 			// of its worker process (state left behind by earlier runs)?
 			from := f.from
@@ -924,7 +934,7 @@ func check(id, tier string, runsOverride, secsOverride int) int {
 			exit = 1
 			continue
 		}
-		if !sameClass(f.variant, &rf, cls, tries) {
+		if flaky && !sameClass(f.variant, &rf, cls, tries) {
 			fmt.Fprintf(os.Stderr, "UNSTABLE: run %d (%s) failed with %s but its trace does not reproduce it; treated as harness trouble\n%s\n",
 				f.run, f.variant.Name, cls, tail(f.viol.Msg, 3000))
 			unstable = true
@@ -935,14 +945,17 @@ func check(id, tier string, runsOverride, secsOverride int) int {
 		if tier == "thorough" {
 			budget = 240 * time.Second
 		}
-		rf.Trace = minimise(f.variant, rf, cls, budget)
+		rf.Trace = minimise(f.variant, rf, cls, budget, flaky)
+		if flaky && !f.variant.Race {
+			rf.Note = "replays probabilistically: the violation depends on the order in which zapx walks its section map (Go map iteration), which no seed controls; ./check replay retries up to 10 times. "
+		}
 		// final replay for the event log
 		if rr, _, _ := replayOnce(f.variant, &rf, 120*time.Second); rr != nil && rr.Viol != nil {
 			rf.Violation = rr.Viol
 			rf.Events = rr.Events
 			rf.Labels = rr.Labels
 		}
-		rf.Note = fmt.Sprintf("minimised from %d to %d choices; replay with: bin/verifsim replay <this file>", before, len(rf.Trace))
+		rf.Note += fmt.Sprintf("minimised from %d to %d choices; replay with: ./check replay <this file>", before, len(rf.Trace))
 		path := filepath.Join(verifDir, "replays", fmt.Sprintf("%s-%d-%d.json", id, seed, f.run))
 		b, _ := json.MarshalIndent(&rf, "", " ")
 		os.WriteFile(path, b, 0o644)
@@ -1035,7 +1048,7 @@ func replayCmd(path string) int {
 		fmt.Fprintln(os.Stderr, "BUILD FAILED:", err)
 		return 2
 	}
-	tries := 1
+	tries := 10
 	if v.Race {
 		tries = 20
 	}
